@@ -72,8 +72,20 @@ ManyErrors ==
     [Seed(NoIns) EXCEPT !.hs = <<Handler("key", <<>>, <<Pr(<<Num(1)>>)>>), Handler("down", <<>>, <<Pr(<<Num(2)>>)>>),
                                  Handler("up", <<>>, <<Pr(<<Num(3)>>)>>), Handler("animate", <<>>, <<Pr(<<Num(4)>>)>>)>>] }
 
-Progs == MapLits \cup EffProgs \cup RepMapProgs \cup UnusedProgs \cup FontProgs \cup ManyErrors \cup {Seed(NoIns), Seed2}
-ClassOf(p) == CASE p \in MapLits -> "maplit-types" [] p \in RepMapProgs -> "map-copy" [] p \in EffProgs -> "maplit-effects" [] p \in UnusedProgs -> "unused"
+\* the random seed is the only source of the rand / rand1 values; nothing a run leaves behind (err, errmsg, the
+\* position in the random stream, test counts) is seen by the next run: every program reads the state first and
+\* changes it last
+StateProgs ==
+  { Program(<<Raw(<<"print (rand 1000) (rand1) (rand 7) (rand1) (rand1)">>), Raw(<<"for range 3">>), Raw(<<"    print (rand1) (rand 100)">>), Raw(<<"end">>)>>, <<>>, <<>>),
+    Program(<<Raw(<<"print (rand1)">>)>>, <<>>, <<>>),
+    Program(<<Raw(<<"print err \"[\"+errmsg+\"]\"">>), Raw(<<"n := str2num \"12x\"">>), Raw(<<"print n err errmsg">>)>>, <<>>, <<>>),
+    Program(<<Raw(<<"print err errmsg (rand 50)">>), Raw(<<"b := str2bool \"maybe\"">>), Raw(<<"print b err errmsg (rand1)">>),
+              Raw(<<"test 1 2">>), Raw(<<"test true">>)>>, <<>>, <<>>),
+    Program(<<Raw(<<"ok := str2num \"1\"">>), Raw(<<"print ok err \"[\"+errmsg+\"]\"">>), Raw(<<"bad := str2num \"x\"">>), Raw(<<"print bad">>),
+              Raw(<<"on key k:string">>), Raw(<<"    print k err errmsg (rand 9)">>), Raw(<<"    z := str2num k">>), Raw(<<"    print z err">>), Raw(<<"end">>)>>, <<>>, <<>>) }
+
+Progs == StateProgs \cup MapLits \cup EffProgs \cup RepMapProgs \cup UnusedProgs \cup FontProgs \cup ManyErrors \cup {Seed(NoIns), Seed2}
+ClassOf(p) == CASE p \in StateProgs -> "run-state" [] p \in MapLits -> "maplit-types" [] p \in RepMapProgs -> "map-copy" [] p \in EffProgs -> "maplit-effects" [] p \in UnusedProgs -> "unused"
                 [] p \in FontProgs -> "fontprops" [] OTHER -> "other"
 
 Init == pr \in Progs
